@@ -20,9 +20,13 @@ var c14Alphabet = []string{".", "[", "]", `"`, "?", ":", "-", "0", "1", "a", "_"
 // the one normalisation of the printer: '?' directly after an identity dot is dropped
 var c14IdentOpt = regexp.MustCompile(`\.\?+(\.|\[|$)`)
 
+// leading zeros of an integer inside brackets carry no meaning; a printer may drop them
+var c14LeadingZeros = regexp.MustCompile(`([\[:]-?)0+([0-9])`)
+
 func c14Normalise(s string) string {
 	for {
 		n := c14IdentOpt.ReplaceAllString(s, ".$1")
+		n = c14LeadingZeros.ReplaceAllString(n, "$1$2")
 		if n == s {
 			return n
 		}
@@ -106,7 +110,7 @@ func c14SelectorSub() *engine.Sub {
 			}
 			ctx.Nontrivial(1)
 			printed := sel.String()
-			if printed != cs.S && printed != c14Normalise(cs.S) {
+			if printed != cs.S && c14Normalise(printed) != c14Normalise(cs.S) {
 				ctx.Outcome("accepted-lossy")
 				cls := "selector/part-dropped"
 				if strings.Count(cs.S, `"`)%2 == 1 || strings.Contains(cs.S, `\"`) {
@@ -449,7 +453,7 @@ func C14() *engine.Check {
 		Level:    "model_checking",
 		Subs:     []*engine.Sub{c14SelectorSub(), c14PolicySub(), c14ConstructedSub(), c14CtorSelSub()},
 		Assumptions: []string{
-			"rejected selector texts carry no obligation; the only accepted normalisation is dropping '?' after an identity dot",
+			"rejected selector texts carry no obligation; accepted normalisations of the printed form: '?' after an identity dot dropped, leading zeros of bracketed integers dropped; anything else counts as a dropped or altered part",
 			"policy nodes are generated from a grammar of statement shapes (operator x arity x argument kind), not from arbitrary IPLD",
 		},
 	}
